@@ -13,7 +13,7 @@ LEVEL = "model_checking"
 ASSUMPTIONS = [
     "the statement's precondition (each rule names a child at most once) is checked at run time; rules violating it "
     "are reported as outside the claim",
-    "existing children are drawn from the rule's own names, lengths <= L per rule",
+    "existing children are drawn from the rule's own names, lengths <= L per rule; beyond L only sorted sequences with every name repeated r times",
     "premise of the restoration clause uses the strict language, its conclusion the lenient one",
 ]
 
